@@ -444,7 +444,13 @@ class CalculationService(BaseSubscriber):
                                 attr_id)
             # Force attribute recalculation if changed attribute defines
             # resistance to some effect
-            for projector in projections.get_tgt_projectors(item):
+            tgt_projectors = set(projections.get_tgt_projectors(item))
+            # Owner-modifiable in-space items (e.g. drones) can be affected by
+            # effects projected onto their ship, but resist them on their own
+            ship = getattr(item._fit, 'ship', None)
+            if item._owner_modifiable and ship is not None and ship is not item:
+                tgt_projectors.update(projections.get_tgt_projectors(ship))
+            for projector in tgt_projectors:
                 effect = projector.effect
                 if effect.resist_attr_id not in attr_ids:
                     continue
